@@ -140,6 +140,10 @@ RegTxMarksK(s, ev, t, ok, k) ==
      \cup If(~ok /\ Len(ev.msgs) > 1 /\ ev.msgs[1].t = (IF k = "wrk" THEN "WReg" ELSE "BReg") /\ t.wrk.next = s.wrk.next /\ t.bcn.next = s.bcn.next, L("reg:registration-rolled-back"))
      \cup If(Cardinality({ j \in DOMAIN MsgsOf(ev) : IsRec(MsgsOf(ev)[j]) }) >= 2 /\ ok, L("rec:two-in-one-tx"))
      \cup If(Cardinality({ j \in DOMAIN MsgsOf(ev) : IsBuy(MsgsOf(ev)[j]) }) >= 2, L("buy:two-in-one-tx"))
+     \* a height below the last recorded one that holds no record (a gap, or pruned)
+     \cup If(k = "wrk" /\ AnyMsg(ev, LAMBDA m : m.t = "WRec" /\ ChOk(k, m) /\ m.h # 0 /\ m.h < C(m).last /\ ~\E j \in DOMAIN C(m).recs : C(m).recs[j].h = m.h),
+             L("rec:lower-height-without-record"))
+     \cup If(ok /\ AnyMsg(ev, LAMBDA m : m.t \in {"WReg", "BReg"} /\ IsRegMsg(k, m) /\ (m.moniker = " m " \/ m.moniker = "   " \/ m.name = " n " \/ m.name = " n")), L("reg:white-space-at-the-edges"))
      \* from now on two registrations of the module hold records (what an export has to keep apart)
      \cup If(ok /\ Cardinality({ i \in DOMAIN t[k].ch : t[k].ch[i].recs # <<>> }) >= 2 /\ Cardinality({ i \in DOMAIN s[k].ch : s[k].ch[i].recs # <<>> }) < 2,
              L("rec:second-registration-with-records"))
@@ -294,6 +298,7 @@ AllLabels == <<
   "ghost:decide-on-rolled-back-order-id", "ghost:raise-reuses-rolled-back-id", "ghost:stream-op-on-rolled-back-pair", "ghost:stream-op-after-rolled-back-change", "stream:op-with-roles-reversed",
   "decide:twice-in-another-spelling-of-the-address", "decide:first-in-upper-case-spelling", "tally:stale+no-decisions", "decide:twice-after-another-signer-decided",
   "wrk:rec:second-registration-with-records", "bcn:rec:second-registration-with-records",
+  "wrk:rec:lower-height-without-record", "wrk:reg:white-space-at-the-edges", "bcn:reg:white-space-at-the-edges",
   "group:stream-operation-by-proposal", "group:registry-operation-by-proposal", "group:order-raised-by-proposal", "group:proposal-rolled-back-after-first-message",
   "group:proposal-message-fails-transaction-succeeds", "group:proposal-by-non-member", "group:message-not-the-policy-accounts",
   "group:direct-transaction-in-the-policy-accounts-name", "group:policy-account-stream-funded", "group:claim-from-policy-account-stream",
